@@ -543,6 +543,47 @@ class _MergeFlagIfs(ast.NodeTransformer):
         return node
 
 
+class _ChainedFlag(ast.NodeTransformer):
+    """`f = A` directly followed by `if not f: f = B` is `f = A or B`; followed by `if f: f = B` it is `f = A and B` (A and B
+    comparisons / boolean combinations, f a plain name)"""
+
+    @staticmethod
+    def _boolish(e):
+        return isinstance(e, (ast.Compare, ast.BoolOp)) or (isinstance(e, ast.UnaryOp) and isinstance(e.op, ast.Not))
+
+    def _block(self, body):
+        out = []
+        for st in body:
+            prev = out[-1] if out else None
+            if prev is not None and isinstance(prev, ast.Assign) and len(prev.targets) == 1 and isinstance(prev.targets[0], ast.Name) \
+                    and self._boolish(prev.value) and isinstance(st, ast.If) and not st.orelse and len(st.body) == 1 and \
+                    isinstance(st.body[0], ast.Assign) and len(st.body[0].targets) == 1 and \
+                    isinstance(st.body[0].targets[0], ast.Name) and st.body[0].targets[0].id == prev.targets[0].id and \
+                    self._boolish(st.body[0].value):
+                f = prev.targets[0].id
+                t = st.test
+                op = None
+                if isinstance(t, ast.Name) and t.id == f:
+                    op = ast.And()
+                elif isinstance(t, ast.UnaryOp) and isinstance(t.op, ast.Not) and isinstance(t.operand, ast.Name) and t.operand.id == f:
+                    op = ast.Or()
+                if op is not None and not any(isinstance(n, ast.Name) and n.id == f for n in ast.walk(st.body[0].value)):
+                    new = ast.Assign(targets=[ast.Name(id=f, ctx=ast.Store())],
+                                     value=ast.BoolOp(op=op, values=[prev.value, st.body[0].value]), type_comment=None)
+                    out[-1] = ast.fix_missing_locations(ast.copy_location(new, prev))
+                    continue
+            out.append(st)
+        return out
+
+    def generic_visit(self, node):
+        super().generic_visit(node)
+        for fld in ('body', 'orelse', 'finalbody'):
+            b = getattr(node, fld, None)
+            if isinstance(b, list) and b and isinstance(b[0], ast.stmt):
+                setattr(node, fld, self._block(b))
+        return node
+
+
 class _GuardContinue(ast.NodeTransformer):
     """in a loop body, `if C: continue` followed by the rest R of the body is `if not C: R`"""
 
@@ -561,6 +602,46 @@ class _GuardContinue(ast.NodeTransformer):
                     else ast.copy_location(ast.UnaryOp(op=ast.Not(), operand=st.test), st.test)
                 return body[:k] + [ast.copy_location(ast.If(test=test, body=rest, orelse=[]), st)]
         return body
+
+
+class _ShiftedRange(ast.NodeTransformer):
+    """`for x in range(c, E): B` with an integer constant c != 0 (unit step) is `for x0 in range(E - c): x = x0 + c; B`: the
+    loop is counted from zero, as everywhere in the package, and the shift is an ordinary definition the terms fold away"""
+    counter = 0
+
+    def visit_For(self, node):
+        self.generic_visit(node)
+        it = node.iter
+        if not (isinstance(node.target, ast.Name) and isinstance(it, ast.Call) and isinstance(it.func, ast.Name) and
+                it.func.id == 'range' and not it.keywords and len(it.args) in (2, 3) and not node.orelse):
+            return node
+        if len(it.args) == 3 and not (isinstance(it.args[2], ast.Constant) and it.args[2].value == 1):
+            return node
+        c = it.args[0]
+        if isinstance(c, ast.UnaryOp) and isinstance(c.op, ast.USub) and isinstance(c.operand, ast.Constant):
+            cv = -c.operand.value if isinstance(c.operand.value, int) and not isinstance(c.operand.value, bool) else None
+        elif isinstance(c, ast.Constant) and isinstance(c.value, int) and not isinstance(c.value, bool):
+            cv = c.value
+        else:
+            cv = None
+        if cv is None or cv == 0:
+            return node
+        if any(isinstance(n, ast.Name) and n.id == node.target.id for n in ast.walk(it.args[1])):
+            return node
+        _ShiftedRange.counter += 1
+        x0 = '_%s_from0_%d' % (node.target.id, _ShiftedRange.counter)
+        stop = ast.BinOp(left=it.args[1], op=ast.Sub(), right=ast.Constant(value=cv))
+        shift = ast.Assign(targets=[ast.Name(id=node.target.id, ctx=ast.Store())],
+                           value=ast.BinOp(left=ast.Name(id=x0, ctx=ast.Load()), op=ast.Add(), right=ast.Constant(value=cv)))
+        new = ast.For(target=ast.Name(id=x0, ctx=ast.Store()),
+                      iter=ast.Call(func=ast.Name(id='range', ctx=ast.Load()), args=[stop], keywords=[]),
+                      body=[ast.copy_location(shift, node)] + node.body, orelse=[])
+        for n in ast.walk(new.iter):
+            ast.copy_location(n, node.iter)
+        for n in ast.walk(shift):
+            ast.copy_location(n, node)
+        ast.copy_location(new.target, node.target)
+        return ast.copy_location(new, node)
 
 
 class _ReduceToLoop(ast.NodeTransformer):
@@ -720,7 +801,9 @@ def inline_project(trees, exports):
                 _NormaliseIfs().visit(fn_)
                 _WhileTrueBreak().visit(fn_)
                 _MergeFlagIfs().visit(fn_)
+                _ChainedFlag().visit(fn_)
                 _GuardContinue().visit(fn_)
+                _ShiftedRange().visit(fn_)
         for st in tree.body:
             if isinstance(st, ast.FunctionDef):
                 st.body = recover_comprehensions(split_conditional_statements(unroll_constant_loops(st.body, mglobals)))
